@@ -154,6 +154,8 @@ pub struct Inst<T: Smp> {
     pub stream_len: Vec<u64>,
     pub ckpt: usize,
     pub dead: bool,
+    pub log_vals: bool,      // log output values (2^-20 fixed point) of the first active channel
+    pub last_out: Vec<f64>,  // the frames written by the last call (first active channel)
     pub blk: usize,          // block size for stream block digests (0 = off)
     pub blk_acc: Vec<u64>,   // bits of the frames of the current, incomplete block (first active channel)
 }
@@ -461,6 +463,8 @@ pub fn build<T: Smp>(op: &Value) -> (Option<Inst<T>>, Value) {
                 dead: false,
                 blk: gi(op, "blk", 0) as usize,
                 blk_acc: Vec::new(),
+                log_vals: gb(op, "vals", false),
+                last_out: Vec::new(),
             };
             m.insert("post".into(), getters(&inst.res));
             m.insert("priv".into(), privs(&inst.res));
@@ -891,6 +895,14 @@ impl<T: Smp> Inst<T> {
                 if let Some(c) = tau_chan {
                     let v = &outs[c];
                     let upto = nout.min(v.len());
+                    self.last_out = v[..upto].iter().map(|x| x.to64()).collect();
+                    if self.log_vals {
+                        let n = upto.min(self.taus_cap);
+                        m.insert(
+                            "vals".into(),
+                            json!(v[..n].iter().map(|x| fx(x.to64())).collect::<Vec<_>>()),
+                        );
+                    }
                     match self.signal {
                         Signal::Index => {
                             let n = upto.min(self.taus_cap);
@@ -1085,6 +1097,144 @@ impl<T: Smp> Inst<T> {
 
 pub type Slot = (AnyInst, f64, f64);
 
+fn last_out_of(s: &Slot) -> (&Vec<f64>, u32) {
+    match &s.0 {
+        AnyInst::F32(i) => (&i.last_out, 32),
+        AnyInst::F64(i) => (&i.last_out, 64),
+    }
+}
+
+/// Numeric guard: largest difference between the last outputs of two instances, in units of
+/// eps * peak where eps is the epsilon of the less precise sample type.
+fn cmp_event(insts: &[Option<Slot>], op: &Value) -> Value {
+    let a = gi(op, "a", 0) as usize;
+    let b = gi(op, "b", 1) as usize;
+    let mut ev = json!({"ev":"cmp","id":a as i64,"a":a as i64,"b":b as i64,"n":0,"units":0,"peak":fx(0.0),"bits":64,
+        "bound": gi(op, "bound", 0)});
+    if let (Some(Some(sa)), Some(Some(sb))) = (insts.get(a), insts.get(b)) {
+        let (va, ta) = last_out_of(sa);
+        let (vb, tb) = last_out_of(sb);
+        let n = va.len().min(vb.len());
+        let bits = ta.min(tb);
+        let eps = if bits == 32 { f32::EPSILON as f64 } else { f64::EPSILON };
+        let mut peak = 0.0f64;
+        let mut diff = 0.0f64;
+        for k in 0..n {
+            peak = peak.max(va[k].abs()).max(vb[k].abs());
+            let d = (va[k] - vb[k]).abs();
+            if !(d <= diff) {
+                diff = d;
+            }
+        }
+        let units = if peak > 0.0 { (diff / (eps * peak)).ceil() } else if diff > 0.0 { 1.0e9 } else { 0.0 };
+        let m = ev.as_object_mut().unwrap();
+        m.insert("n".into(), json!(n as i64));
+        m.insert("units".into(), json!(if units.is_finite() { units.min(1.0e9) as i64 } else { 1_000_000_000 }));
+        m.insert("peak".into(), fx(peak));
+        m.insert("bits".into(), json!(bits as i64));
+    }
+    ev
+}
+
+/// One-hot conformance of the sinc kernels (C15): for a wave that is 1.0 at one position and 0
+/// elsewhere the scalar product has a single non-zero term, so every kernel must return exactly
+/// the table entry it pairs with that position - bit-identically, whatever the summation order,
+/// FMA or not - and exactly 0 for positions outside [index, index + L).
+fn kernel_events<T: Smp>(op: &Value, cx: &mut Ctx) {
+    let l = gi(op, "L", 8) as usize;
+    let f = gi(op, "F", 2) as usize;
+    let fcut = gi(op, "fcut_milli", 950) as f32 / 1000.0;
+    let win = window_of(gs(op, "window", "BlackmanHarris2"));
+    let seed = gi(op, "seed", 1) as u64;
+    let names = ["scalar", "avx", "sse"];
+    let kernels: Vec<Option<Box<dyn SincInterpolator<T>>>> =
+        names.iter().map(|n| make_kernel::<T>(n, l, f, fcut, win)).collect();
+    let pairs: Vec<(usize, usize, usize)> = op
+        .get("pairs")
+        .and_then(|a| a.as_array())
+        .map(|a| {
+            a.iter()
+                .filter_map(|p| {
+                    let p = p.as_array()?;
+                    Some((p[0].as_i64()? as usize, p[1].as_i64()? as usize, p[2].as_i64()? as usize))
+                })
+                .collect()
+        })
+        .unwrap_or_default();
+    for (index, sub, align) in pairs {
+        // the slice handed to the kernel starts `align` elements into an allocation
+        let wave_len = index + l + 4;
+        let mut store: Vec<T> = vec![T::from64(0.0); wave_len + align + 8];
+        let mut digs: Vec<String> = vec![];
+        let mut outside_zero: Vec<bool> = vec![];
+        let mut inside_nonzero: Vec<i64> = vec![];
+        let mut dense: Vec<i64> = vec![];
+        // dense reference: noise with a huge dynamic range
+        let noise: Vec<f64> = (0..wave_len)
+            .map(|n| sample_at(&Signal::Big, seed, 0, n as i64))
+            .collect();
+        let mut ref_dense = 0.0f64;
+        let mut sum_abs = 0.0f64;
+        for (ki, k) in kernels.iter().enumerate() {
+            let k = match k {
+                Some(k) => k,
+                None => {
+                    digs.push("absent".into());
+                    outside_zero.push(true);
+                    inside_nonzero.push(-1);
+                    dense.push(-1);
+                    continue;
+                }
+            };
+            let mut h = 0xcbf29ce484222325u64;
+            let mut oz = true;
+            let mut nz = 0i64;
+            let lo = index.saturating_sub(2);
+            for j in lo..(index + l + 2).min(wave_len) {
+                for x in store.iter_mut() {
+                    *x = T::from64(0.0);
+                }
+                store[align + j] = T::from64(1.0);
+                let wave = &store[align..align + wave_len];
+                let v = k.get_sinc_interpolated(wave, index, sub);
+                fnv(&mut h, v.bits64());
+                let inside = j >= index && j < index + l;
+                if !inside && v.to64() != 0.0 {
+                    oz = false;
+                }
+                if inside && v.to64() != 0.0 {
+                    nz += 1;
+                }
+                if ki == 0 && inside {
+                    // table entry as seen through the scalar kernel
+                    sum_abs += (v.to64() * noise[j]).abs();
+                }
+            }
+            digs.push(format!("{:016x}", h));
+            outside_zero.push(oz);
+            inside_nonzero.push(nz);
+            // dense wave
+            for (n, x) in noise.iter().enumerate() {
+                store[align + n] = T::from64(*x);
+            }
+            let v = k.get_sinc_interpolated(&store[align..align + wave_len], index, sub).to64();
+            if ki == 0 {
+                ref_dense = v;
+                dense.push(0);
+            } else {
+                let eps = if T::BITS == 32 { f32::EPSILON as f64 } else { f64::EPSILON };
+                let bound = (l as f64) * eps * sum_abs.max(f64::MIN_POSITIVE);
+                let units = ((v - ref_dense).abs() / bound * 1000.0).ceil();
+                dense.push(if units.is_finite() { units.min(1.0e9) as i64 } else { 1_000_000_000 });
+            }
+        }
+        cx.emit(json!({"ev":"kernel","id":0,"T":T::BITS as i64,"L":l as i64,"F":f as i64,
+            "index":index as i64,"sub":sub as i64,"align":align as i64,
+            "names":names,"dig":digs,"outside_zero":outside_zero,"inside_nonzero":inside_nonzero,
+            "dense_milli":dense}));
+    }
+}
+
 /// One operation on the instance table.
 fn exec_op(insts: &mut Vec<Option<Slot>>, op: &Value, cx: &mut Ctx) {
     let name = gs(op, "op", "");
@@ -1110,6 +1260,18 @@ fn exec_op(insts: &mut Vec<Option<Slot>>, op: &Value, cx: &mut Ctx) {
         let mut ev = op.clone();
         ev.as_object_mut().unwrap().insert("ev".into(), json!("note"));
         cx.emit(ev);
+        return;
+    }
+    if name == "cmp" {
+        cx.emit(cmp_event(insts, op));
+        return;
+    }
+    if name == "kernels" {
+        if gi(op, "T", 64) == 32 {
+            kernel_events::<f32>(op, cx);
+        } else {
+            kernel_events::<f64>(op, cx);
+        }
         return;
     }
     let slot = match insts.get_mut(id) {
